@@ -30,7 +30,7 @@ add('C14', 'exploration', 'property-based testing on a virtual clock with deadli
     'DESIGN.md section 3 C14')
 add('C15', 'exploration', 'exhaustive decision-table enumeration + property-based testing over generated certificates, against an independent policy function',
     'The TLS negotiation table (96 cells) is enumerated completely and certificates with generated SAN multisets are presented through a scripted TLS socket; what the real endpoint does (SESS_INIT, established, SESS_TERM contact-failure, close, authn parameters) is compared with a policy function written from the property text.',
-    'Real TLS handshakes and chain validation are out of scope (scripted socket, only Config.get_ssl_context() replaced); peers are reached by IP literal as tcpcl.agent.Agent.connect() does (no DNS-ID reference) or, in by_name cases, by a host name handed to the handler directly.',
+    'Real TLS handshakes and chain validation are out of scope (scripted socket, only Config.get_ssl_context() replaced); peers are reached by IP literal as tcpcl.agent.Agent.connect() does (no DNS-ID reference) or, in by_name cases, by a host name given to Agent.connect() and resolved by a stub resolver.',
     'DESIGN.md section 3 C15')
 add('C18', 'exploration', 'model-based property testing with a marshalling model at the D-Bus boundary and a queue/idle reference model',
     'Every signal and method return of generated TCPCL (two real endpoints) and UDPCL histories passes through a model of dbus-python marshalling against the declared signature; queue queries, pops and the idle indication are compared with a reference model computed from the recorded event history at the moment of each query.  Stack histories drive the real bp/cla.py adaptors of three whole nodes (BP agent, TCPCL and UDPCL agents, virtual message bus, simulated network): every transfer that completed on the wire must reach the BP agent once with the sender octets, the receive queues must end empty, and every value crossing the bus must marshal.',
